@@ -4,6 +4,8 @@ package main
 //   e2e <cfg…> H <history…> Q <query…>
 //   cfg    : card=<n>  pqs=<0|1> (persistent-query results; default on, as in the engine's default configuration)
 //   history: ev/<vid>/<ts>/<k~tv,…|->  send  fl  ro          tv ::= i<int> | d<dec> | s<hex> | b0 | b1 | z
+//            st/<n>           (between batches) the following batches go to ingest stream n of the index (default 0): every stream
+//                             has its own segstore, i.e. its own open segment, flushed and rotated together with the others
 //            rq/<filterRPN>   the query is run at this point of the history over the whole time range, the answer is
 //                             discarded: it registers the query as persistent, so that segments created afterwards get
 //                             their persistent-query results computed while they are ingested
@@ -74,6 +76,8 @@ func init() {
 		}
 		register(&Suite{Name: "e2e_" + p, Parallel: 6, Gen: gen, Exec: execE2E, Rule: rule})
 	}
+	register(&Suite{Name: "e2e_cseg", Parallel: 6, Gen: genE2ESeg, Exec: execE2E,
+		Rule: "segment selection by time, end to end: one index whose segments have very different time widths, overlap, are nested and are not ordered by time (1–3 ingest streams with their own segstores, back-filled events), rotated and open segments mixed; by construction: a wide rotated segment + a narrow rotated one ending later + an older narrow one inside the wide one, queried over windows that end between the two narrow ones; a rotated segment ending after the window + flushed events of an open segment (second stream or late events) inside the window; query windows ending before / on the bounds of / inside / after the single segments; match-all and simple comparisons, as record search, stats (segment-statistics and raw path) and stats processor; a third of the cases also as a second layout (one stream, time order, one segment); non-trivial = ≥3 events and ≥1 query"})
 	register(&Suite{Name: "e2e_pqsboot", Parallel: 2, Gen: genPqsBoot, Exec: execE2E,
 		Rule: "first boot on a fresh data directory, the back-fill queue of the persistent-query results read by nothing but the engine's own listener (cfg pqdrain=0): (a) 100 distinct persistent queries over one rotated segment — the 100 back-fill requests must reach the .sfm file; (b) 100 persistent queries that match nothing, registered before 11 segments are ingested and rotated — more empty-result requests than the queue holds, no sender may stay blocked and the next query must answer; non-trivial = always"})
 }
@@ -1188,6 +1192,380 @@ func genE2EV2(r *rand.Rand, n int, tier, profile string) []string {
 	return out
 }
 
+// ---------------------------------------------------------------- generator: segment selection by time (profile cseg)
+
+// e2eSegPiece: the events one ingest stream receives in one round of the history (a round ends with `fl` or `ro`); the events
+// of a stream between two rotations form one segment.
+type e2eSegPiece struct {
+	lo, hi uint64
+	stream int
+}
+
+// genE2ESeg: histories in which the segments of ONE index have very different time widths, overlap, are nested and are not
+// ordered by time — several ingest streams (each with its own segstore) and/or back-filled (out-of-order) events — with rotated
+// and open segments mixed, and query windows that end before / at the bounds of / inside / after the single segments.  Which
+// segments a query has to read is decided by time at SEGMENT level (metadata.FilterSegmentsByTime over the rotated ones,
+// writer.FilterUnrotatedSegmentsInQuery over the open ones); the answers are judged by the same specification as every other
+// log suite.  Shapes built by construction (tags seg-select/…):
+//
+//	gap     a wide rotated segment, a narrow rotated one that ends later than the query window, an older narrow rotated one
+//	        inside the wide one: in the order of the segments' ends the ones overlapping a window are NOT next to each other
+//	behind  a rotated segment that ends after the window, and flushed events of an open segment (other stream, or late events)
+//	        that lie inside the window
+//	mix     3–7 pieces of random widths (wide / narrow / one instant) on random streams, flushed or rotated at random
+func genE2ESeg(r *rand.Rand, n int, tier string) []string {
+	var out []string
+	for c := 0; c < n; c++ {
+		toks := []string{"e2e"}
+		if card := []int{0, 0, 3, 1000}[r.Intn(4)]; card > 0 {
+			toks = append(toks, fmt.Sprintf("card=%d", card))
+		}
+		toks = append(toks, "H")
+		vid := 0
+		curStream := 0
+		var pieces []e2eSegPiece
+		var evToks []string
+		emit := func(p e2eSegPiece) {
+			if p.stream != curStream {
+				toks = append(toks, fmt.Sprintf("st/%d", p.stream))
+				curStream = p.stream
+			}
+			k := 1 + r.Intn(4)
+			if p.hi > p.lo && k < 2 {
+				k = 2
+			}
+			for j := 0; j < k; j++ {
+				ts := p.lo
+				switch {
+				case j == 1:
+					ts = p.hi
+				case j > 1:
+					ts = p.lo + uint64(r.Int63n(int64(p.hi-p.lo+1)))
+				}
+				vid++
+				fs := []kv{{"i", fmt.Sprintf("i%d", r.Intn(21))}, {"s", "s" + hexs(vocab[r.Intn(len(vocab))])}}
+				if r.Intn(3) == 0 {
+					fs = append(fs, kv{"x", fmt.Sprintf("i%d", r.Intn(5))})
+				}
+				if r.Intn(4) == 0 {
+					fs = append(fs, kv{"g", "s" + hexs([]string{"red", "green", "blue"}[r.Intn(3)])})
+				}
+				t := e2eEvent{vid: vid, ts: ts, fields: fs}.token()
+				toks = append(toks, t)
+				evToks = append(evToks, t)
+				if j == k-1 || r.Intn(3) == 0 {
+					toks = append(toks, "send")
+				}
+			}
+			pieces = append(pieces, p)
+		}
+		narrow := func(lo uint64) e2eSegPiece {
+			return e2eSegPiece{lo: lo, hi: lo + []uint64{0, 1, 7, 100, 300}[r.Intn(5)]}
+		}
+		var aimed [][2]uint64 // windows aimed at the shape
+		shape := r.Intn(5)
+		switch shape {
+		case 0, 1: // gap
+			a := e2eBase + uint64(r.Intn(3000))
+			l := uint64(8000 + r.Intn(10000))
+			w := e2eSegPiece{lo: a, hi: a + l}
+			o := narrow(a + 200 + uint64(r.Intn(int(l/2)-1000)))
+			nw := narrow(a + l/2 + 500 + uint64(r.Intn(int(l/2)-1000)))
+			ps := []e2eSegPiece{w, nw, o}
+			r.Shuffle(3, func(i, j int) { ps[i], ps[j] = ps[j], ps[i] })
+			mode := r.Intn(3) // 0: three streams rotated together; 1: one stream, three rotations (back-fill); 2: two streams, two rotations
+			for i := range ps {
+				switch mode {
+				case 0:
+					ps[i].stream = i
+				case 2:
+					ps[i].stream = i % 2
+				}
+				emit(ps[i])
+				if mode == 1 || (mode == 2 && i == 1) {
+					toks = append(toks, "ro")
+				}
+			}
+			toks = append(toks, "ro")
+			// a window over the older narrow segment that ends between it and the later narrow one
+			gapEnd := o.hi + 1 + uint64(r.Int63n(int64(nw.lo-o.hi-1)))
+			aimed = append(aimed, [2]uint64{o.lo - uint64(r.Intn(150)), gapEnd}, [2]uint64{e2eBase - 1000, gapEnd})
+			if r.Intn(2) == 0 { // and something still open on top
+				p := narrow(a + uint64(r.Intn(int(l))))
+				p.stream = r.Intn(3)
+				emit(p)
+				toks = append(toks, "fl")
+			}
+		case 2, 3: // behind
+			if r.Intn(2) == 0 { // older rotated data first
+				p := narrow(e2eBase + uint64(r.Intn(2000)))
+				p.stream = r.Intn(2)
+				emit(p)
+				toks = append(toks, "ro")
+			}
+			t1 := e2eBase + 6000 + uint64(r.Intn(8000))
+			a := e2eSegPiece{lo: t1 - []uint64{0, 9, 500, 4000}[r.Intn(4)], hi: t1, stream: r.Intn(2)}
+			emit(a)
+			toks = append(toks, "ro")
+			b := narrow(e2eBase + 2500 + uint64(r.Intn(1500)))
+			b.stream = r.Intn(2) // the same stream: late events; the other one: a second shard
+			emit(b)
+			toks = append(toks, "fl")
+			if r.Intn(3) == 0 { // a second flush into the same open segment
+				b2 := narrow(b.hi + 1 + uint64(r.Intn(400)))
+				b2.stream = b.stream
+				emit(b2)
+				toks = append(toks, "fl")
+			}
+			aimed = append(aimed, [2]uint64{b.lo - uint64(r.Intn(100)), b.hi + uint64(r.Intn(1000))}, [2]uint64{b.lo, t1}, [2]uint64{e2eBase - 1000, t1 - 1 + uint64(r.Intn(3))})
+		default: // mix
+			np := 3 + r.Intn(5)
+			for i := 0; i < np; i++ {
+				var p e2eSegPiece
+				switch r.Intn(4) {
+				case 0:
+					p = e2eSegPiece{lo: e2eBase + uint64(r.Intn(4000))}
+					p.hi = p.lo + uint64(6000+r.Intn(12000))
+				default:
+					p = narrow(e2eBase + uint64(r.Intn(20000)))
+				}
+				p.stream = r.Intn(3)
+				emit(p)
+				switch r.Intn(5) {
+				case 0, 1:
+					toks = append(toks, "ro")
+				case 2:
+					toks = append(toks, "fl")
+				}
+			}
+			toks = append(toks, []string{"fl", "fl", "ro"}[r.Intn(3)])
+		}
+		if r.Intn(3) == 0 {
+			// the SAME events in one stream, in time order, in one segment
+			toks = append(toks, "H2")
+			evs := append([]string{}, evToks...)
+			sort.SliceStable(evs, func(i, j int) bool {
+				a, b := strings.SplitN(evs[i], "/", 4), strings.SplitN(evs[j], "/", 4)
+				x, _ := strconv.ParseUint(a[2], 10, 64)
+				y, _ := strconv.ParseUint(b[2], 10, 64)
+				return x < y
+			})
+			for i, t := range evs {
+				toks = append(toks, t)
+				if r.Intn(4) == 0 || i == len(evs)-1 {
+					toks = append(toks, "send")
+					if r.Intn(3) == 0 {
+						toks = append(toks, "fl")
+					}
+				}
+			}
+			toks = append(toks, []string{"fl", "ro"}[r.Intn(2)])
+		}
+		toks = append(toks, "Q")
+		// windows: the aimed ones, then bounds placed before / on / inside / after the single pieces
+		bound := func() uint64 {
+			p := pieces[r.Intn(len(pieces))]
+			switch r.Intn(7) {
+			case 0:
+				return p.lo - 1 - uint64(r.Intn(50))
+			case 1:
+				return p.lo
+			case 2:
+				return p.lo + uint64(r.Int63n(int64(p.hi-p.lo+1)))
+			case 3:
+				return p.hi
+			case 4:
+				return p.hi + 1 + uint64(r.Intn(50))
+			case 5:
+				return p.hi + 1
+			default:
+				return p.lo - 1
+			}
+		}
+		var wins [][2]uint64
+		for _, w := range aimed {
+			if r.Intn(4) != 0 {
+				wins = append(wins, w)
+			}
+		}
+		for k, nq := 0, 3+r.Intn(4); k < nq; k++ {
+			a, b := bound(), bound()
+			if r.Intn(4) == 0 {
+				a = e2eBase - 1000
+			}
+			if r.Intn(8) == 0 {
+				b = e2eBase + 40000
+			}
+			if a > b {
+				a, b = b, a
+			}
+			wins = append(wins, [2]uint64{a, b})
+		}
+		r.Shuffle(len(wins), func(i, j int) { wins[i], wins[j] = wins[j], wins[i] })
+		for _, w := range wins {
+			fl := "all"
+			switch r.Intn(6) {
+			case 0:
+				fl = fmt.Sprintf("c:i:%s:i%d", []string{"lt", "ge", "gt", "le", "eq", "ne"}[r.Intn(6)], r.Intn(21))
+			case 1:
+				fl = fmt.Sprintf("c:s:%s:s%s", []string{"eq", "ne"}[r.Intn(2)], hexs(vocab[r.Intn(len(vocab))]))
+			}
+			st := ""
+			switch r.Intn(8) {
+			case 0, 1:
+				st = "/stats:count:-"
+			case 2:
+				st = "/stats:count+sum.i:s"
+			case 3:
+				st = "/pstats:count+max.i:-"
+			}
+			toks = append(toks, fmt.Sprintf("q/0/1000/%d/%d/%s%s", w[0], w[1], fl, st))
+		}
+		out = append(out, strings.Join(toks, " "))
+	}
+	return out
+}
+
+// e2eSegSelectTags: distribution tags of the segment-selection shapes of a history (first layout) and its query windows.
+// Segments: per ingest stream, the flushed events between two rotations; rotated when a `ro` followed, else open.
+func e2eSegSelectTags(f []string, tags map[string]bool) {
+	type seg struct {
+		lo, hi  uint64
+		rotated bool
+	}
+	var segs []seg
+	open := map[int]*seg{} // flushed events of the open segment of a stream
+	pend := map[int]*seg{} // sent, not flushed
+	cur := 0
+	var batch []uint64
+	streams := map[int]bool{}
+	add := func(m map[int]*seg, st int, lo, hi uint64) {
+		if m[st] == nil {
+			m[st] = &seg{lo: lo, hi: hi}
+			return
+		}
+		if lo < m[st].lo {
+			m[st].lo = lo
+		}
+		if hi > m[st].hi {
+			m[st].hi = hi
+		}
+	}
+	flush := func() {
+		for st, p := range pend {
+			add(open, st, p.lo, p.hi)
+		}
+		pend = map[int]*seg{}
+	}
+	i := 0
+	for ; i < len(f) && f[i] != "Q" && f[i] != "H2"; i++ {
+		t := f[i]
+		switch {
+		case strings.HasPrefix(t, "st/"):
+			cur, _ = strconv.Atoi(t[3:])
+		case strings.HasPrefix(t, "ev/"):
+			p := strings.SplitN(t, "/", 4)
+			ts, _ := strconv.ParseUint(p[2], 10, 64)
+			batch = append(batch, ts)
+		case t == "send":
+			for _, ts := range batch {
+				add(pend, cur, ts, ts)
+				streams[cur] = true
+			}
+			batch = nil
+		case t == "fl":
+			flush()
+		case t == "ro":
+			flush()
+			for _, s := range open {
+				segs = append(segs, seg{s.lo, s.hi, true})
+			}
+			open = map[int]*seg{}
+		}
+	}
+	nrot := len(segs)
+	for _, s := range open {
+		segs = append(segs, seg{s.lo, s.hi, false})
+	}
+	if len(segs) < 2 {
+		return
+	}
+	if len(streams) > 1 {
+		tags["seg-select/several-streams-in-one-index"] = true
+	}
+	if nrot > 0 && nrot < len(segs) {
+		tags["seg-select/rotated-and-open-segments"] = true
+	}
+	if nrot >= 3 {
+		tags["seg-select/3+-rotated-segments"] = true
+	}
+	wide, thin := false, false
+	for a, x := range segs {
+		if x.hi-x.lo >= 5000 {
+			wide = true
+		}
+		if x.hi-x.lo <= 300 {
+			thin = true
+		}
+		for b, y := range segs {
+			if a != b && x.lo <= y.lo && y.hi <= x.hi && (x.lo < y.lo || y.hi < x.hi) {
+				tags["seg-select/segment-nested-in-another"] = true
+			}
+		}
+	}
+	if wide && thin {
+		tags["seg-select/wide-and-narrow-segments"] = true
+	}
+	for ; i < len(f) && f[i] != "Q"; i++ {
+	}
+	for _, t := range f[min(i+1, len(f)):] {
+		p := strings.Split(t, "/")
+		if len(p) < 6 || p[0] != "q" {
+			continue
+		}
+		qs, _ := strconv.ParseUint(p[3], 10, 64)
+		qe, _ := strconv.ParseUint(p[4], 10, 64)
+		ov := func(s seg) bool { return s.lo <= qe && qs <= s.hi }
+		// in the order of the segments' ends (descending, the order of the rotated table): overlapping, not overlapping, overlapping
+		for _, a := range segs[:nrot] {
+			for _, b := range segs[:nrot] {
+				for _, c := range segs[:nrot] {
+					if a.hi > b.hi && b.hi > c.hi && ov(a) && !ov(b) && ov(c) {
+						tags["seg-select/window-overlaps-rotated-segments-not-adjacent-by-end"] = true
+					}
+				}
+			}
+		}
+		newer := false
+		for _, a := range segs[:nrot] {
+			if a.hi >= qe {
+				newer = true
+			}
+		}
+		for _, o := range segs[nrot:] {
+			if ov(o) {
+				tags["seg-select/window-overlaps-open-segment"] = true
+				if newer {
+					tags["seg-select/window-overlaps-open-segment-and-ends-at-or-before-rotated-data"] = true
+				}
+			}
+		}
+		for _, s := range segs {
+			switch {
+			case qe < s.lo:
+				tags["seg-select/window-ends-before-a-segment"] = true
+			case qe == s.lo || qe == s.hi:
+				tags["seg-select/window-ends-on-a-segment-bound"] = true
+			case qe < s.hi:
+				tags["seg-select/window-ends-inside-a-segment"] = true
+			}
+			if qs == s.hi || qs == s.lo {
+				tags["seg-select/window-starts-on-a-segment-bound"] = true
+			}
+		}
+	}
+}
+
 // ---------------------------------------------------------------- exec
 
 func tvToJSON(tv string) (string, bool) {
@@ -1757,6 +2135,12 @@ func execE2ELayout(f []string) Result {
 		case t == "ro":
 			in.WriteString("rotate\n")
 			unflushed = 0
+		case strings.HasPrefix(t, "st/"):
+			n, err := strconv.Atoi(t[3:])
+			if err != nil || n < 0 || n > 9 || len(batch) > 0 {
+				return Result{Out: "bad-op"}
+			}
+			fmt.Fprintf(&in, "stream %d\n", n)
 		case strings.HasPrefix(t, "rq/"):
 			spl, ok := filterToSPL(t[3:])
 			if !ok {
@@ -2090,6 +2474,7 @@ func execE2ELayout(f []string) Result {
 	for _, t := range e2eHistoryTags(f) {
 		tagSet[t] = true
 	}
+	e2eSegSelectTags(f, tagSet)
 	for t := range tagSet {
 		tags = append(tags, t)
 	}
